@@ -105,6 +105,31 @@ Section Batching.
      (in trigger order), operator calls made.  None = Go panic. *)
   Definition stepres := option (opstate * store * list (N * R) * list ev).
 
+  (* the body of the loop for a redis request, after the (optional) conflict pre-check;
+     out0 / ev0 = replies triggered and operator calls made by the pre-check's CommitBatch *)
+  Definition exec_redis (st0 : opstate) (s0 : store) (out0 : list (N * R)) (ev0 : list ev) (q : req) : stepres :=
+    let bq := is_batchable st0 q in            (* batch.IsBatchable(...) is always called ... *)
+    let b := bq && rvalid q in                 (* ... && isValidBatchableWrite(...) *)
+    let '(st1, s1, out1, ev1) :=
+      if b then (if batching st0 then (st0, s0, out0, ev0 ++ [EQ bq]) else (begin_op st0, s0, out0, ev0 ++ [EQ bq; EB]))
+      else let '(a, c, d) := commit_op st0 s0 in (a, c, out0 ++ d, ev0 ++ [EQ bq; EC (batching st0)]) in
+    match handler q s1 with
+    | NoHandler => Some (st1, s1, out1 ++ [(rid q, err_invalid)], ev1)
+    | Fail e ab =>
+        let st2 := if batching st1 then add_key st1 (rpk q) else st1 in
+        let evk := if batching st1 then [EK] else [] in
+        if ab then
+          let '(st3, s3, out3) := abort_op st2 s1 e in
+          Some (st3, s3, out1 ++ (rid q, e) :: out3, ev1 ++ evk ++ [EA (batching st2)])
+        else Some (st2, s1, out1 ++ [(rid q, e)], ev1 ++ evk)
+    | Ok ws r =>
+        let st2 := if batching st1 then add_key st1 (rpk q) else st1 in
+        let evk := if batching st1 then [EK] else [] in
+        if batching st2
+        then Some (add_rsp st2 (rid q) r ws, s1, out1, ev1 ++ evk ++ [ER])
+        else Some (st2, commit_ws s1 ws, out1 ++ [(rid q, r)], ev1 ++ evk)
+    end.
+
   Definition step (conflict_on : bool) (st : opstate) (s : store) (q : req) : stepres :=
     match rkind q with
     | KGarbage => Some (st, s, [(rid q, parse_err q)], [])
@@ -114,29 +139,13 @@ Section Batching.
         Some (st1, s2, out1 ++ [(rid q, r)], [EC (batching st)])
     | KRedis =>
         if rnargs q <? 2 then None
-        else if conflict_on && conflicts q s then Some (st, s, [(rid q, reply_nil)], [])
-        else
-          let bq := is_batchable st q in            (* batch.IsBatchable(...) is always called ... *)
-          let b := bq && rvalid q in                (* ... && isValidBatchableWrite(...) *)
-          let '(st1, s1, out1, ev1) :=
-            if b then (if batching st then (st, s, [], []) else (begin_op st, s, [], [EB]))
-            else let '(a, c, d) := commit_op st s in (a, c, d, [EC (batching st)]) in
-          match handler q s1 with
-          | NoHandler => Some (st1, s1, out1 ++ [(rid q, err_invalid)], EQ bq :: ev1)
-          | Fail e ab =>
-              let st2 := if batching st1 then add_key st1 (rpk q) else st1 in
-              let evk := if batching st1 then [EK] else [] in
-              if ab then
-                let '(st3, s3, out3) := abort_op st2 s1 e in
-                Some (st3, s3, out1 ++ (rid q, e) :: out3, EQ bq :: ev1 ++ evk ++ [EA (batching st2)])
-              else Some (st2, s1, out1 ++ [(rid q, e)], EQ bq :: ev1 ++ evk)
-          | Ok ws r =>
-              let st2 := if batching st1 then add_key st1 (rpk q) else st1 in
-              let evk := if batching st1 then [EK] else [] in
-              if batching st2
-              then Some (add_rsp st2 (rid q) r ws, s1, out1, EQ bq :: ev1 ++ evk ++ [ER])
-              else Some (st2, commit_ws s1 ws, out1 ++ [(rid q, r)], EQ bq :: ev1 ++ evk)
-          end
+        else if conflict_on then
+          (* live entry of the cluster syncer (not syncer-only): CommitBatch, then the conflict pre-check
+             on the committed store; a conflicting write is acknowledged with nil and skipped *)
+          let '(st0, s0, out0) := commit_op st s in
+          if conflicts q s0 then Some (st0, s0, out0 ++ [(rid q, reply_nil)], [EC (batching st)])
+          else exec_redis st0 s0 out0 [EC (batching st)] q
+        else exec_redis st s [] [] q
     end.
 
   Fixpoint steps (conflict_on : bool) (st : opstate) (s : store) (qs : list req) : stepres :=
@@ -253,7 +262,8 @@ Arguments batching {W R}. Arguments dup {W R}. Arguments pend {W R}. Arguments w
    The instance run by the correspondence check ("journal"): the store is the list of request
    ids whose writes were committed, in commit order; a request's own outcome is an input
    (class and error hash observed on the Go side, packed in rbody):
-       rbody = 4 * errhash + class,  class 0 = success, 1 = error needing abort, 2 = other error.
+       rbody = 4 * errhash + class,  class 0 = success, 1 = error needing abort, 2 = other error,
+       3 = ignored by the cluster-syncer conflict pre-check (only in live runs of syncer entries).
    Replies: 0 = a value, h + 1 = the error with hash h.  *)
 Definition jstore := list N.
 Definition jhandler (q : req) (_ : jstore) : outcome N N :=
@@ -266,8 +276,11 @@ Definition jother (q : req) (s : jstore) : jstore * N :=
   (s, if N.land (rbody q) 3 =? 0 then 0 else N.shiftr (rbody q) 2 + 1).
 Definition jparse (q : req) : N := N.shiftr (rbody q) 2 + 1.
 
-Definition run_trace (p : list (list call)) : option (jstore * list (N * N) * list ev) :=
-  apply_batched jstore N N (fun s w => s ++ [w]) jhandler jother jparse 0 0 (fun _ _ => false)
-                false false false [] p.
+Definition jconflicts (q : req) (_ : jstore) : bool := N.land (rbody q) 3 =? 3.
+
+Definition run_trace_gen (replaying from_syncer : bool) (p : list (list call)) : option (jstore * list (N * N) * list ev) :=
+  apply_batched jstore N N (fun s w => s ++ [w]) jhandler jother jparse 0 0 jconflicts
+                replaying from_syncer false [] p.
+Definition run_trace (p : list (list call)) := run_trace_gen false false p.
 
 Definition jreply (id : N) (out : list (N * N)) : option N := reply_of N id out.
